@@ -39,8 +39,18 @@ PROPS["C19"] = dict(
          "level's texts are replaced by \"[\" \"]\", class text_would_complete_marker_replaced) - EmbedObject's precondition and "
          "ExtractObject's two-marker format (checked on the assembled message of the level, side texts included); chains that contain more than one "
          "class (GRPCStatusCode's fallback iterates a map) - therefore side branches never hold a class, an error that Is a class "
-         "(syscall.Errno ...) or a gRPC status; custom error types with their own Is/As/Unwrap; "
-         "invalid UTF-8. non-trivial = chain with >= 1 wrap level or an embedded object, or a batch with >= 2 embedded objects, or a non-OK code; distinct = FNV hash of "
+         "(syscall.Errno ...) or a gRPC status; custom error types with their own Is/As/Unwrap. "
+         "EXTRACTION TARGETS: a chain with an object may name a caller-owned target kind (Into): *Obj, *any, *map[string]any, one *json.RawMessage variable re-used for all stages (nil at first, or holding other content with 4 KiB of spare capacity), "
+         "or a named []byte type whose UnmarshalJSON keeps a copy of the text. At every stage (result of EmbedObject, finished chain, GRPCWrap, second GRPCWrap) the object is first extracted into that target, compared with what encoding/json itself decodes "
+         "from the embedded object's JSON text into a target of the same kind (re-marshalled; RawMessage/[]byte texts compared after a decode through interface{}), and then OVERWRITTEN IN PLACE by the caller (every byte of the RawMessage/[]byte, every field, element and map entry of the decoded values) - "
+         "what ExtractObject filled in belongs to the caller - before the plain *Obj extraction of the stage and all later stages run; at the end the plain extraction is repeated on the result of EmbedObject, the finished chain, GRPCWrap(e) and a fresh GRPCWrap(e). "
+         "rapid: half of the chains with an object, kind drawn; exhaustive: every list up to depth 2 over 6 styles x 10 classes x embedding level x 4 objects x (no target + 6 kinds), half of the combinations at depth 2. "
+         "RAW BYTES: error texts and object strings are Go strings, not necessarily UTF-8. Inside a case every text is valid UTF-8 and a rune U+F780..U+F7FF stands for the raw byte 0x80..0xFF (so the JSON form of the case is exact); the library gets the decoded bytes. "
+         "Wrap texts, side texts, object strings / keys and code messages may hold invalid bytes (Latin-1, lone continuation bytes, truncated sequences, surrogates, overlong forms, 0xFF) and genuine U+FFFD characters "
+         "(one rapid chain in six draws two thirds of its texts from such pieces, so that raw bytes in the wrapping meet U+FFFD in the object's JSON text; exhaustive: 4 raw styles, 2 raw objects in the section above, 2 raw code messages). "
+         "Invalid UTF-8 had been excluded because encoding/json would not keep such a case byte-exact and because json.Marshal writes U+FFFD for invalid bytes of the OBJECT's strings (two map keys may even coincide), so the Go value embedded is not what any decoder can return: "
+         "for an object with invalid bytes the reference of all stages is therefore what the library itself extracts from the result of EmbedObject (same library path before and after the wrapping and GRPCWrap); objects whose strings are valid - U+FFFD included - keep the "
+         "embedded value as the reference, whatever the wrap texts hold. Verified first that the unchanged library (in process: status.Error keeps the message bytes) behaves consistently on all of these. What a real gRPC transport does to a status message that is not UTF-8 is not part of the check. non-trivial = chain with >= 1 wrap level or an embedded object, or a batch with >= 2 embedded objects, or a non-OK code; distinct = FNV hash of "
          "the JSON form of the case",
     assumptions=["the classes that have a gRPC code are the ten named in the errorsToCode table at the pinned commit (fixed list, "
                  "not derived from the code under test)",
@@ -49,6 +59,9 @@ PROPS["C19"] = dict(
                  "text of GRPCWrap(e) is not compared with e.Error() - a lost or altered text is reported only through "
                  "ExtractObject (false or a different object)",
                  "an error value and its embedded object must not depend on errors created after it (batches)",
+                 "a value filled in by ExtractObject belongs to the caller: writing to it must not change what the error, or a status error made from it, "
+                 "renders and yields afterwards (errors are immutable values; encoding/json copies what it decodes and asks the same of an Unmarshaler)",
+                 "for objects whose strings are not valid UTF-8 'the same object' means the object the library extracts right after EmbedObject (JSON cannot carry the invalid bytes)",
                  "'any chain of wrapping around it' is read to include the standard library's other %w forms (several %w verbs, errors.Join) "
                  "as long as the class is the only class in the tree, and chains in which GRPCWrap (idempotent by the statement) was already "
                  "applied at a lower layer; verified first that the unchanged library keeps class, exclusiveness, idempotence and the object "
